@@ -1,5 +1,6 @@
 import IpaVerif.Model.Sharing
 import IpaVerif.Generated.MacConsts
+import IpaVerif.Generated.MacReveal
 /-!
 Model for property C04: MAC-protected arithmetic (`MaliciousReplicated = (x, r·x)`) and two-copy openings.
 
@@ -12,7 +13,11 @@ pseudonym computation, `Fp25519`):
 * local linear operations of `malicious::AdditiveShare`                            (replicated/malicious/additive_share.rs)
 * `Malicious::new` (accumulators start as PRSS zero shares), `propagate_u_and_w`, `T = u − w·r`,
   `malicious_check_zero`, the record-id helpers                                    (validator.rs, check_zero.rs)
-* `malicious_reveal`                                                               (basics/reveal.rs)
+* `malicious_reveal`, `semi_honest_reveal` and EVERY `impl Reveal<Ctx> for Sharing` (which of the two openings it
+  delegates to: `Generated/MacReveal.lean`)                                         (basics/reveal.rs)
+* the batch structure of a validator: `BatchValidator::new` hands the `Batcher` the constructor
+  `|batch_index| Malicious::new(ctx, batch_index)`; `Malicious::new` draws the batch's key `r` at the PRSS index
+  `r_share_record(batch_index, 3)`; `Malicious::validate` OPENS `r`                  (validator.rs, batcher.rs)
 
 Formulas, operand choices, record-id multipliers and message directions are taken from
 `Generated/MacConsts.lean`, which the translator re-reads from the sources on every run.
@@ -298,5 +303,82 @@ def sendRecords (offset : Nat) : List Nat := [uRecord offset totalSend, wRecord 
 
 /-- `validate_record(record_id)` belongs to batch `record_id / records_per_batch` (the Batcher, C16). -/
 def batchOf (recordsPerBatch record : Nat) : Nat := record / recordsPerBatch
+
+/-! ## every `impl Reveal<Ctx> for Sharing` (basics/reveal.rs) -/
+
+open IpaVerif.Generated.MacReveal in
+/-- the contexts of the malicious modes (`protocol/context/{malicious,dzkp_malicious}.rs`). -/
+def maliciousCtxs : List String :=
+  (contextModules.filter (fun p => p.2 == "malicious" || p.2 == "dzkp_malicious")).map (·.1)
+
+def isMaliciousCtx (ctx : String) : Bool := maliciousCtxs.contains ctx
+
+open IpaVerif.Generated.MacReveal in
+/-- all concrete instances `(context, sharing, opening)`: the impls written for a context, and for every impl that is
+generic in the context and delegates per element (`BitDecomposed<S>`): one instance per (context, element sharing),
+with the opening of the element's impl (trait dispatch `S::generic_reveal`). -/
+def resolvedImpls : List (String × String × RevealFn) :=
+  let direct := (revealImpls.filter (fun i => i.ctx != "*")).map (fun i => (i.ctx, i.sharing, i.fn))
+  let generic := revealImpls.filter (fun i => i.ctx == "*")
+  direct ++ generic.flatMap (fun g => direct.map (fun d =>
+    (d.1, g.sharing ++ "<" ++ d.2.1 ++ ">", if g.fn = .perElement then d.2.2 else g.fn)))
+
+open IpaVerif.Generated.MacReveal in
+def resolveImpl (ctx sharing : String) : Option RevealFn :=
+  (resolvedImpls.find? (fun r => r.1 == ctx && r.2.1 == sharing)).map (·.2.2)
+
+/-- `semi_honest_reveal`, receiving side: ONE copy, from the left peer; nothing to compare. -/
+def revealAtOne (A : Alg F) (own : HShare F) (fromLeft : F) : Option F :=
+  some (A.add (A.add fromLeft own.l) own.r)
+
+open IpaVerif.Generated.MacReveal in
+/-- an opening through an impl that delegates to `fn`; helper `c` deviates (sends `mL` to its left peer, `mR` to its
+right peer — under `semi_honest_reveal` only the message to the right peer exists); seen from helper `h`. -/
+def revealVia [DecidableEq F] (A : Alg F) (fn : RevealFn) (w : World F) (c h : Nat) (mL mR : F) : Option F :=
+  match fn with
+  | .twoCopy => revealCorrupt A w c h mL mR
+  | .oneCopy => revealAtOne A (view w h) (if (h + 2) % 3 = c % 3 then mR else (view w (h + 2)).l)
+  | _ => none
+
+/-! ## batches of one validator and their keys -/
+
+/-- the PRSS index at which the key of batch `b` is drawn: by the per-batch constructor `Malicious::new(ctx, b)`, at
+`r_share_record(b, TOTAL_CALLS_TO_PRSS)`.  (`keyPerBatch = false` — a key drawn once for the validator — would be the
+index of batch 0 for every batch.) -/
+def keyIndex (b : Nat) : Nat := rShareRecord (if keyPerBatch then b else 0) totalCallsToPrss
+
+/-- everything one batch does, including the deviating helper's errors. -/
+structure BatchIn (F : Type) where
+  mu : Masks F
+  mw : Masks F
+  gates : List (Gate F)
+  ve : ValErr F
+  czρ : Masks F
+  czMask : World F
+
+structure BatchOut (F : Type) where
+  wires : List (MShare F)
+  /-- `validate` returned `Ok` -/
+  ok : Bool
+
+/-- Batches `0 … n−1` of one validator, in order. `prss i` = the sharing `prss.generate(i)` of the validator's step;
+`keyIdx b` = the index of batch `b`'s key.  The contents of batch `b` (its gates with the deviating helper's errors)
+are chosen by `adv` knowing every key OPENED so far: `Malicious::validate` reveals `r` to all helpers, whatever the
+verdict.  Returns the batches' outcomes and the list of opened keys. -/
+def runBatchesWith [DecidableEq F] (A : Alg F) (keyIdx : Nat → Nat) (prss : Nat → World F)
+    (adv : Nat → List F → BatchIn F) : Nat → List (BatchOut F) × List F
+  | 0 => ([], [])
+  | n + 1 =>
+    let prev := runBatchesWith A keyIdx prss adv n
+    let bi := adv n prev.2
+    let r := prss (keyIdx n)
+    let st := run A r bi.gates ⟨[], initAcc A bi.mu bi.mw⟩
+    let ok := validateE A r st.acc bi.ve bi.czρ bi.czMask
+    (prev.1 ++ [⟨st.wires, ok⟩], prev.2 ++ (if validateOpensKey then [reconstruct A r] else []))
+
+/-- the code: keys at `keyIndex`. -/
+def runBatches [DecidableEq F] (A : Alg F) (prss : Nat → World F) (adv : Nat → List F → BatchIn F) (n : Nat) :
+    List (BatchOut F) × List F :=
+  runBatchesWith A keyIndex prss adv n
 
 end IpaVerif.Mac
